@@ -193,11 +193,12 @@ func (p *WorkerPool) Stop() {
 
 // Stats returns statistics about the worker pool
 func (p *WorkerPool) Stats() (maxWorkers int, activeWorkers int, queuedTasks int) {
+	// Resize replaces taskQueue under resizeMu: read both under the same lock
 	p.resizeMu.Lock()
 	maxWorkers = p.maxWorkers
+	queuedTasks = len(p.taskQueue)
 	p.resizeMu.Unlock()
 	activeWorkers = int(atomic.LoadInt32(&p.activeWorkers))
-	queuedTasks = len(p.taskQueue)
 	return
 }
 
